@@ -457,6 +457,17 @@ def make_copy(name, consts, L="2", N="2"):
                       ret="void", ptypes=["ND_SIZE_T"], vec_types=["ND_SIZE_T", "IN_VEC_T"], method="OUT_VEC_T *res, ND_SIZE_T sizes",
                       arrays=["sizes"], arrays2=["res"], call_index=["source_at", "source_at_nd"], subst=COPY_SUBST))
         return Unit(name, fns, "contracts/copy.h", "lemmas/copy.c")
+    if L == "3":
+        fns.append(Fn("hilbert_rot", HILBERT, ["struct hilbert"], "rot", ret="void",
+                      ptypes=["size_t", "size_t *", "size_t *", "size_t", "size_t"]))
+        fns.append(Fn("hilbert_calculate_index", HILBERT, ["struct hilbert"], "calculate_index", ret="size_t",
+                      ptypes=["IN_VEC_T", "ND_SIZE_T"], vec_types=["IN_VEC_T", "ND_SIZE_T"],
+                      subst=HILBERT_SUBST + [("rot(", "hilbert_rot(", 0)]))
+        fns.append(Fn("hilbert_copy_elem", HILBERT, ["struct hilbert"], "make_hilbert_copy", kind="lambda", lambda_marker=r"\[[^\]]*&\s*res\s*\]",
+                      ret="void", ptypes=["ND_SIZE_T"], vec_types=["ND_SIZE_T", "IN_VEC_T"], method="OUT_VEC_T *res, ND_SIZE_T sizes",
+                      arrays=["sizes"], arrays2=["res"], call_index=["source_at", "source_at_nd"],
+                      subst=COPY_SUBST + HILBERT_SUBST + [("calculate_index(", "hilbert_calculate_index(", 0)]))
+        return Unit(name, fns, "contracts/copy.h", "lemmas/copy.c")
     raise ExtractionError("unknown copy layer")
 
 
